@@ -164,9 +164,9 @@ Section WithCodec.
   (* One write of the bulk fails with an I/O error (EFBIG/ENOSPC/EIO), no crash: the first `cut`
      bytes of that write reach the file. in_meta = false: the docs write fails (nothing else is
      attempted); in_meta = true: the docs block is written and fsynced, the meta write fails.
-     ActiveWriter.Write then rolls the unit back (commit ce3aaa8): both writer offsets are stored
-     back and both files are truncated to the end of the last complete bulk (docs first, then
-     meta); the error is returned: no index entry, no acknowledgement. *)
+     ActiveWriter.Write then rolls the unit back (commits ce3aaa8, 5db7f73): both writer offsets are
+     stored back and both files are truncated to the end of the last complete bulk (meta first,
+     then docs); the error is returned: no index entry, no acknowledgement. *)
   Definition fault_writes (p : proc) (b : bulk) (in_meta : bool) (cut : nat) : list fop :=
     if in_meta
     then [W FDocs (off_d p) (dblock b); F FDocs] ++
@@ -174,7 +174,7 @@ Section WithCodec.
     else (if cut =? 0 then [] else [W FDocs (off_d p) (firstn cut (dblock b))]).
 
   Definition fault_ops (p : proc) (b : bulk) (in_meta : bool) (cut : nat) : list fop :=
-    fault_writes p b in_meta cut ++ [T FDocs (off_d p); T FMeta (off_m p)].
+    fault_writes p b in_meta cut ++ [T FMeta (off_m p); T FDocs (off_d p)].
 
   Definition do_fault (d : disk) (p : proc) (b : bulk) (in_meta : bool) (cut : nat) : disk * proc :=
     let s := fold_left sapply (fault_ops p b in_meta cut)
@@ -191,8 +191,15 @@ Section WithCodec.
           (idx p)).
 
   (* the process dies (possibly with power loss) somewhere between the failing write and the end
-     of the rollback: a bytes of the docs block and c bytes of the meta block are in the files *)
+     of the rollback: a bytes of the docs block and c bytes of the meta block are in the files.
+     Bytes of the meta block exist only while the docs block is whole: it is written and fsynced
+     before the meta write starts, and the rollback cuts the meta file first. *)
   Definition fault_crash (d : disk) (p : proc) (b : bulk) (a c : nat) : disk :=
+    Disk (docs d ++ firstn (if c =? 0 then a else length (dblock b)) (dblock b))
+         (meta d ++ firstn c (mblock b (off_d p))).
+
+  (* rollback order before commit 5db7f73 (docs cut first): a whole meta block can outlive its docs block *)
+  Definition fault_crash_v0 (d : disk) (p : proc) (b : bulk) (a c : nat) : disk :=
     Disk (docs d ++ firstn a (dblock b)) (meta d ++ firstn c (mblock b (off_d p))).
 
   (* the process dies inside the bulk: the first k operations completed, operation k+1 (if a
@@ -415,12 +422,8 @@ Section WithCodec.
     forall b1 b2 d1 d2, In b1 bs -> In b2 bs -> In d1 (b_docs b1) -> In d2 (b_docs b2) ->
       d_id d1 = d_id d2 -> d1 = d2.
 
-  (* a crash inside a failed unit: the meta block is incomplete (the write failed part-way) *)
-  Definition crash_cut_ok (o : hop) : Prop :=
-    match o with HFaultCrash b _ c => c < length (mblock b 0) | _ => True end.
-
   Definition wf_hist (h : list hop) : Prop :=
-    Forall wf_bulk (hist_bulks h) /\ ids_functional (hist_bulks h) /\ Forall crash_cut_ok h.
+    Forall wf_bulk (hist_bulks h) /\ ids_functional (hist_bulks h).
 
   (* same history on the write path before commit ce3aaa8 (failed writes are not rolled back) *)
   Definition step_f0 (s : st) (o : hop) : res st :=
